@@ -211,6 +211,11 @@ def add_stats(ck, stats, prefix=""):
         if k.startswith("op:"):
             _, op, prof = k.split(":")
             per_op[op] += v
+        elif k.startswith("inflthreads:"):
+            _, th, nn = k.split(":")
+            d = ck.cov.setdefault("inflated_executions_by_threads_and_size", {})
+            key = "threads=%s n=%s" % (th, nn)
+            d[key] = d.get(key, 0) + v
         elif k.startswith(("refused:", "infl:")):
             continue
         elif k in ("omp_max_threads", "eigen_threads", "omp_max_threads_seen"):
@@ -317,15 +322,23 @@ def run(tier):
 
     # 2. behaviours replayed into the real classes
     per_op = collections.Counter()
-    phases = [("all1", 1, "full", "all", 16), ("red2", 2, "reduced", "all", 32)] if quick else \
-             [("all2", 2, "full", "all", 96), ("core3", 3, "reduced", "core", 96)]
+    # thread independence: the first operation of every behaviour is also replayed on operands inflated by
+    # A (x) J_n / A (x) I_n with sizes that are NOT multiples of the thread counts (any chunking remainder is
+    # exposed), through every route including the generic mixed-storage ones
+    combos = "combos=1:5,2:7,3:11,5:7,7:11,16:11"
+    phases = [("all1", 1, "full", "all", 16, []), ("red2", 2, "reduced", "std", 32, [combos])] if quick else \
+             [("all2", 2, "full", "all", 96, []), ("core3", 3, "reduced", "core", 96, [combos])]
     nodes = 0
-    for tag, maxlen, init, ops, nb in phases:
-        dis, gen, stats = machine_phase(ck, exe, tag, maxlen, init, ops, nb)
+    for tag, maxlen, init, ops, nb, hopts in phases:
+        dis, gen, stats = machine_phase(ck, exe, tag, maxlen, init, ops, nb, harness_opts=hopts)
+        if hopts and (stats.get("inflated_executed", 0) == 0 or stats.get("inflated_generic_routes", 0) == 0):
+            raise Broken("thread-independence pass of %s executed nothing (vacuous)" % tag)
         states += dis
         trans += gen
         nodes += stats.get("nodes", 0)
         per_op += add_stats(ck, stats)
+    if ck.cov.get("routes_mixed_storage", 0) == 0:
+        raise Broken("no mixed-storage route executed (vacuous)")
     missing = [o for o in ALL_OPS if per_op.get(o, 0) == 0]
     if missing:
         raise Broken("operations never executed on the real classes (vacuous): %s" % missing)
@@ -338,7 +351,7 @@ def run(tier):
     if not quick:
         for th in (1, 4, 16):
             dis, gen, stats = machine_phase(ck, exe, "thr%d" % th, 1, "reduced", "all", 16,
-                                            harness_opts=["threads=%d" % th, "infl=%d" % (96 if th > 1 else 64)],
+                                            harness_opts=["threads=%d" % th, "infl=%d" % (97 if th > 1 else 65)],
                                             nproc=NPROC)
             states += dis
             trans += gen
